@@ -128,15 +128,23 @@ VALUE_POOL = [['A'], ['B'], ['C'], ['D'], ['D'], ['D'], ['E'], ['F'], ['F'],
 # family construction
 # ---------------------------------------------------------------------------
 
-def build_fd(ov, tag):
+def build_fd(ov, tag, world=None):
     """ov: {'params': [[name, typespec, default?]...], 'varargs': typespec|None,
-    'kind': 'function'|'method'|'extension', 'no_kwargs': bool}"""
+    'kind': 'function'|'method'|'extension', 'no_kwargs': bool}
+    world: what the overloads registered into one host share (the Python
+    callable of 'shared_payload' overloads)."""
     from yaql.language import specs
     if ov.get('shared_payload'):
-        fn = _shared_payload(len(ov['params']))
-        fd = specs.get_function_definition(fn, name='f')
-        for p in ov['params']:
-            fd.set_parameter(p[0], type_from_spec(p[1]), overwrite=True)
+        fn = _shared_payload(len(ov['params']), world)
+        if ov.get('via_ptf'):
+            # the typing rule is passed at registration time
+            types = {p[0]: type_from_spec(p[1]) for p in ov['params']}
+            fd = specs.get_function_definition(
+                fn, name='f', parameter_type_func=lambda n: types.get(n))
+        else:
+            fd = specs.get_function_definition(fn, name='f')
+            for p in ov['params']:
+                fd.set_parameter(p[0], type_from_spec(p[1]), overwrite=True)
         fd.no_kwargs = bool(ov.get('no_kwargs'))
         if ov['kind'] == 'method':
             fd.is_method, fd.is_function = True, False
@@ -175,13 +183,17 @@ def build_fd(ov, tag):
     return fd
 
 
-def _shared_payload(n):
-    fn = _state.get(('shared', n))
+def _shared_payload(n, world=None):
+    """One Python callable per host (world): a new function object for every
+    world that is built, as in a fresh process."""
+    if world is None:
+        world = _state
+    fn = world.get(('shared', n))
     if fn is None:
         ns = {}
         exec('def ov_shared(%s):\n    return "shared"\n'
              % ', '.join('p%d' % i for i in range(n)), ns)
-        fn = _state[('shared', n)] = ns['ov_shared']
+        fn = world[('shared', n)] = ns['ov_shared']
     return fn
 
 
@@ -261,8 +273,10 @@ def gen_family(rng):
             all(p[2] is None for p in ov['params']) for ov in family):
         # one Python callable registered several times under one name with
         # different parameter declarations
+        ptf = rng.choice([0, 1, 2])
         for ov in family:
             ov['shared_payload'] = True
+            ov['via_ptf'] = bool(ptf) if ptf < 2 else rng.random() < 0.5
     # spread over layers (0 = nearest)
     nl = rng.choice([1, 1, 1, 2, 3])
     if nl > 1:
@@ -428,7 +442,8 @@ def execute(case, stats):
     family = case['family']
     n = len(family)
     s = random.Random(case['sched_seed'])
-    fds = [build_fd(ov, 'T%d' % i) for i, ov in enumerate(family)]
+    world0 = {}
+    fds = [build_fd(ov, 'T%d' % i, world0) for i, ov in enumerate(family)]
     tags = ['ov_T%d' % i for i in range(n)]
     viols = []
     perms_all = list(itertools.permutations(range(n)))
@@ -482,8 +497,12 @@ def execute(case, stats):
                 seams.HashSeam.reset(random.Random(core.h64(
                     case['sched_seed'], 'hash', h, p)))
                 try:
-                    fds2 = [build_fd(ov, 'T%d' % i)
-                            for i, ov in enumerate(family)]
+                    # a registration builds the definition and stores
+                    # it: both happen in the order under test, in a host
+                    # of its own
+                    world, fds2 = {}, [None] * n
+                    for i in p:
+                        fds2[i] = build_fd(family[i], 'T%d' % i, world)
                     st = structures[(h + len(p)) % len(structures)]
                     cx = make_contexts(family, fds2, list(p), st)
                     note(['B', st, list(p), h], do_call(cx, call, engine))
